@@ -134,7 +134,9 @@ def generate() -> dict:
     except Exception as e:  # noqa: BLE001 - unknown shape: an opaque mutation, the obligation fails
         stmts, fresh, note = ["mutate"], False, f"{type(e).__name__}: {e}"
     swap, swap_note = swap_ir()
-    note = "; ".join(x for x in (note, swap_note) if x)
+    shape, shape_note = adapt_shape()
+    members = inline_members()
+    note = "; ".join(x for x in (note, swap_note, shape_note) if x)
     text = HEADER.format(src="src/spox/_public.py, src/spox/_adapt.py", tool="translator/inline_facts.py") + (
         "\nimport SpoxModel.Model.Inline\n\nnamespace Generated.InlineFacts\nopen Inline\n\n"
         "/-- top-level statements of `spox._public.inline`, classified by what they may do to `model` -/\n"
@@ -144,10 +146,131 @@ def generate() -> dict:
         "/-- statements of `spox._adapt.adapt_inline` after the no-conversion early returns, as far as\n"
         "    `node.model` is concerned -/\n"
         f"def swapIR : List SStmt := {swap}\n\n"
+        "/-- the decision of `spox._adapt.adapt_inline` as written (normalised source text of every expression it\n"
+        "    is made of): where the target and source versions come from, which guards return the build's\n"
+        "    nodes unconverted, which guard calls the converter, how many `return protos` there are -/\n"
+        f"def adaptShape : List (String × String) := {lean_pairs(shape)}\n\n"
+        "/-- inventory of class `spox._inline._Inline` (methods, properties, class-level attributes, nested classes)\n"
+        "    and of every attribute WRITE on the node object in `_Inline`'s methods and in `adapt_inline`\n"
+        "    (`<function>:<attribute>`): a new override, cache or class-level attribute shows up here -/\n"
+        f"def inlineMembers : List String := {lean_list([lean_str(m) for m in members])}\n\n"
         "end Generated.InlineFacts\n"
     )
     write_if_changed(GEN / "InlineFacts.lean", text)
-    return {"stmts": stmts, "copyFresh": fresh, "swapIR": swap, "note": note}
+    return {"stmts": stmts, "copyFresh": fresh, "swapIR": swap, "adaptShape": shape, "inlineMembers": members, "sourceHashes": source_hashes(), "note": note}
+
+
+def lean_str(x: str) -> str:
+    return '"' + x.replace("\\", "\\\\").replace('"', '\\"').replace("\n", "\\n") + '"'
+
+
+def lean_pairs(pairs) -> str:
+    return "[" + ", ".join(f"({lean_str(a)}, {lean_str(b)})" for a, b in pairs) + "]"
+
+
+def adapt_shape():
+    """Every expression the conversion decision of `adapt_inline` is made of, as normalised source text
+    (`ast.unparse`: comments, layout and quoting style do not matter; names and operators do)."""
+    try:
+        mod = parse("src/spox/_adapt.py")
+        fn = next((f for f in mod.body if isinstance(f, ast.FunctionDef) and f.name == "adapt_inline"), None)
+        if fn is None or len(fn.args.args) < 2:
+            raise LookupError("no function `adapt_inline(node, protos, ...)` in src/spox/_adapt.py")
+        protos = fn.args.args[1].arg
+        out = [("params", ", ".join(a.arg for a in fn.args.args))]
+
+        def returns_protos(body) -> bool:
+            return any(isinstance(x, ast.Return) and isinstance(x.value, ast.Name) and x.value.id == protos for x in body)
+
+        def calls_converter(body) -> bool:
+            return any(isinstance(c, ast.Call) and dotted(c.func).endswith("convert_version") for x in body for c in ast.walk(x))
+
+        for n in ast.walk(fn):
+            if isinstance(n, ast.Assign) and len(n.targets) == 1 and isinstance(n.targets[0], ast.Name) \
+                    and n.targets[0].id in ("target_version", "source_version", "seen_domains"):
+                out.append((n.targets[0].id, ast.unparse(n.value)))
+        n_ret = 0
+        for n in ast.walk(fn):
+            if isinstance(n, ast.If):
+                if returns_protos(n.body):
+                    out.append(("keep-if", ast.unparse(n.test)))
+                if returns_protos(n.orelse):
+                    out.append(("keep-unless", ast.unparse(n.test)))
+                if calls_converter(n.body):
+                    out.append(("convert-if", ast.unparse(n.test)))
+                    conv = [c for x in n.body for c in ast.walk(x) if isinstance(c, ast.Call) and dotted(c.func).endswith("convert_version")]
+                    out += [("convert-call", ast.unparse(c)) for c in conv]
+            if isinstance(n, ast.Return):
+                n_ret += 1
+                if isinstance(n.value, ast.Name) and n.value.id == protos:
+                    out.append(("return-unconverted", "line-order " + str(sum(1 for a, _ in out if a == "return-unconverted"))))
+        out.append(("returns", str(n_ret)))
+        out.append(("loops-or-nested-defs", str(sum(isinstance(n, (ast.For, ast.While, ast.FunctionDef, ast.Lambda)) for n in ast.walk(fn)) - 1)))
+        return out, ""
+    except Exception as e:  # noqa: BLE001
+        return [("opaque", f"{type(e).__name__}")], f"{type(e).__name__}: {e}"
+
+
+def inline_members() -> list:
+    try:
+        out = []
+        mod = parse("src/spox/_inline.py")
+        cls = next(n for n in mod.body if isinstance(n, ast.ClassDef) and n.name == "_Inline")
+        out.append("bases:" + ",".join(ast.unparse(b) for b in cls.bases))
+        for n in cls.body:
+            if isinstance(n, (ast.FunctionDef, ast.AsyncFunctionDef)):
+                deco = ",".join(ast.unparse(d) for d in n.decorator_list)
+                out.append(f"def:{n.name}" + (f"@{deco}" if deco else ""))
+                me = n.args.args[0].arg if n.args.args else "self"
+                for w in ast.walk(n):
+                    if isinstance(w, ast.Attribute) and isinstance(w.ctx, (ast.Store, ast.Del)) and isinstance(w.value, ast.Name) and w.value.id == me:
+                        out.append(f"write:{n.name}:{w.attr}")
+                    if isinstance(w, ast.Call) and dotted(w.func) in ("setattr", "object.__setattr__", "delattr"):
+                        out.append(f"write:{n.name}:<setattr>")
+            elif isinstance(n, ast.ClassDef):
+                out.append(f"class:{n.name}")
+            elif isinstance(n, ast.AnnAssign) and isinstance(n.target, ast.Name):
+                out.append(f"attr:{n.target.id}" + ("=" if n.value is not None else ""))
+            elif isinstance(n, ast.Assign):
+                out += [f"attr:{t.id}=" for t in n.targets if isinstance(t, ast.Name)]
+            elif not (isinstance(n, ast.Expr) and isinstance(n.value, ast.Constant)):
+                out.append("stmt:" + type(n).__name__)
+        amod = parse("src/spox/_adapt.py")
+        fn = next(f for f in amod.body if isinstance(f, ast.FunctionDef) and f.name == "adapt_inline")
+        me = fn.args.args[0].arg
+        for w in ast.walk(fn):
+            if isinstance(w, ast.Attribute) and isinstance(w.ctx, (ast.Store, ast.Del)) and isinstance(w.value, ast.Name) and w.value.id == me:
+                out.append(f"write:adapt_inline:{w.attr}")
+            if isinstance(w, ast.Call) and dotted(w.func) in ("setattr", "object.__setattr__", "delattr"):
+                out.append("write:adapt_inline:<setattr>")
+        return sorted(set(out))
+    except Exception as e:  # noqa: BLE001
+        return [f"opaque:{type(e).__name__}"]
+
+
+COVERED = [("src/spox/_adapt.py", "adapt_inline"), ("src/spox/_inline.py", "rename_in_graph"), ("src/spox/_inline.py", "_Inline"),
+           ("src/spox/_public.py", "inline"), ("src/spox/_public.py", "_copy_model")]
+
+
+def source_hashes() -> dict:
+    """sha1 of the normalised AST (docstrings dropped) of every function / class the C08 model transcribes.
+    Not an obligation (harmless rewrites change it): the harness escalates its counts when one differs
+    from the committed baseline."""
+    import hashlib
+
+    out = {}
+    for path, name in COVERED:
+        try:
+            mod = parse(path)
+            node = next(n for n in mod.body if isinstance(n, (ast.FunctionDef, ast.ClassDef)) and n.name == name)
+            for n in ast.walk(node):
+                if isinstance(n, (ast.FunctionDef, ast.ClassDef)) and n.body and isinstance(n.body[0], ast.Expr) \
+                        and isinstance(n.body[0].value, ast.Constant) and isinstance(n.body[0].value.value, str):
+                    n.body = n.body[1:] or [ast.Pass()]
+            out[f"{path}:{name}"] = hashlib.sha1(ast.dump(node).encode()).hexdigest()[:16]
+        except Exception as e:  # noqa: BLE001
+            out[f"{path}:{name}"] = f"unreadable:{type(e).__name__}"
+    return out
 
 
 def _touches_field(node: ast.AST, obj: str, field: str) -> bool:
